@@ -482,6 +482,12 @@ class BuiltinMixin(CallMixin):
             if z3.is_false(a):
                 return z3.BoolVal(True)
             return z3.Implies(a, ops.truth(st, self.eval1(e.args[1], st, ctx)))
+        if name == "arg":
+            # in a call hint: the actual argument bound to the callee's parameter of that name
+            pst, cfr = ctx.specials["$callee"]
+            if cfr is None or e.args[0].value not in pst.heap[cfr.oid]:
+                raise EngineError(f"arg({e.args[0].value!r}): the callee has no such parameter")
+            return pst.heap[cfr.oid][e.args[0].value]
         if name == "pre":
             pst, pfr = ctx.specials["$pre"]
             sub = ctx.sub(frame=pfr, old=None)
